@@ -295,7 +295,7 @@ def history_alphabet(tier):
     names = ["modern_ms/headings.docx", "modern_ms/pptx_formula_image.pptx", "modern_ms/mwe.xlsx",
              "legacy_ms/headings.doc", "legacy_ms/slide_with_notes.ppt", "legacy_ms/mwe.xls", "legacy_ms/02_dept_transport.rtf",
              "open_office/headings.odt", "open_office/slide_with_notes.odp", "open_office/image_extraction.ods", "open_office/drawing.odg",
-             "open_office/formular.odf", "pdf/sample.pdf", "pdf/multi_image.pdf", "html/sample.html", "html/sample.mhtml", "epub/sample.epub",
+             "open_office/formular.odf", "pdf/sample.pdf", "pdf/multi_image.pdf", "pdf/wirecard-annual-report-2018-page190.pdf", "html/sample.html", "html/sample.mhtml", "epub/sample.epub",
              "mails/basic_email.eml", "mails/basic_email.mbox", "mails/msg_with_attachment.msg", "plain_text/plain.txt", "plain_text/plain.csv",
              "archives/test_archive.zip", "archives/test_archive.7z", "archives/test_archive.tar.gz"]
     if tier != "quick":
